@@ -336,7 +336,7 @@ pub fn run_history(lang_name: &str, name: &str, src: &str, ops: &[Op], rep: &mut
           None => false,
         };
         let sig = if ts_fault {
-          format!("C10/tree-sitter-incremental-reparse/lang={lang_name}")
+          "C10/tree-sitter-incremental-reparse".to_string()
         } else if has_err {
           "C10/tree/error-node-in-edited-tree".to_string()
         } else {
